@@ -135,7 +135,21 @@ func (g *Gen) maybeIP() string {
 func (g *Gen) records(n Name, o Opts, k int) {
 	for i := 0; i < k; i++ {
 		lo := g.loc(o.Located)
-		switch g.R.Pick([]int{6, 2, 2, 2, 2, 1, 1, 1, 1}) {
+		switch g.R.Pick([]int{6, 2, 2, 2, 2, 1, 1, 1, 1, 2}) {
+		case 9:
+			// service bindings: HTTPS (its owner's addresses go to the additional section) and SVCB
+			t := n.Child("svc")
+			if g.R.Chance(1, 3) {
+				t = Name{}
+			}
+			sn := n
+			if g.R.Chance(1, 2) {
+				sn = n.Child("_dns")
+			}
+			g.SVCB(sn, g.R.Chance(1, 2), false, t, lo)
+			if g.R.Chance(1, 2) {
+				g.Addr(sn, false, g.randIP(), g.loc(o.Located), 1)
+			}
 		case 0:
 			w := int64(1)
 			if g.R.Chance(1, 4) {
